@@ -16,11 +16,11 @@ const X: TableDefinition<u64, &[u8]> = TableDefinition::new("x");
 const Y: TableDefinition<u64, &[u8]> = TableDefinition::new("y");
 const MM: MultimapTableDefinition<u64, u64> = MultimapTableDefinition::new("mm");
 
-pub const SCENARIOS: [&str; 10] = ["S1", "S2", "S3", "S3g", "S8g", "S4", "S7", "S5", "S5p", "S6"];
+pub const SCENARIOS: [&str; 11] = ["S1", "S2", "S3", "S3g", "S8g", "S4", "S7", "S5", "S5p", "S6", "S9"];
 
 pub fn threads_of(scn: &str) -> usize {
     match scn {
-        "S2" | "S3" | "S3g" | "S8g" | "S6" => 2,
+        "S2" | "S3" | "S3g" | "S8g" | "S6" | "S9" => 2,
         _ => 3,
     }
 }
@@ -762,8 +762,102 @@ fn s5(cache_idx: usize, prefix: &[usize], pre_savepoint: bool) -> (ExecResult, V
     (x, v)
 }
 
+// ------------------------------------------------------------------------------------------ S9
+
+/// compact() on one thread while a write transaction that began EARLIER creates an ephemeral
+/// savepoint, writes and commits on the other: whatever compact()'s up-front checks saw, the
+/// savepoint is alive by the time it owns the write lock, so it must refuse in every schedule
+fn s9(cache_idx: usize, prefix: &[usize]) -> (ExecResult, Verdict) {
+    let (db, backend) = open_seed(cache_idx);
+    // a hole below live data, so that a compaction that wrongly runs has pages to move
+    {
+        let wt = db.begin_write().unwrap();
+        {
+            let mut x = wt.open_table(X).unwrap();
+            x.remove(5).unwrap();
+        }
+        wt.commit().unwrap();
+        for _ in 0..2 {
+            db.begin_write().unwrap().commit().unwrap();
+        }
+    }
+    let before = crate::dump::dump_tables_only(&db, None).expect("dump");
+    let wt = db.begin_write().unwrap();
+    let sp_slot: Arc<Mutex<Option<redb::Savepoint>>> = Default::default();
+    type Out = (Database, Result<bool, redb::CompactionError>);
+    let db_slot: Arc<Mutex<Option<Out>>> = Default::default();
+    let mut bodies: Vec<Box<dyn FnOnce() + Send>> = vec![];
+    {
+        let slot = sp_slot.clone();
+        bodies.push(Box::new(move || {
+            let sp = wt.ephemeral_savepoint().unwrap();
+            {
+                let mut x = wt.open_table(X).unwrap();
+                x.insert(6, val(66, 1400).as_slice()).unwrap();
+            }
+            wt.commit().unwrap();
+            *slot.lock().unwrap() = Some(sp);
+        }));
+    }
+    {
+        let slot = db_slot.clone();
+        let backend = backend.clone();
+        bodies.push(Box::new(move || {
+            let mut db = db;
+            // horizon: a compaction that never settles must not hang the explorer
+            backend.lock().call_budget = Some(200_000);
+            let r = db.compact();
+            backend.lock().call_budget = None;
+            *slot.lock().unwrap() = Some((db, r));
+        }));
+    }
+    let x = schedx::run_execution(prefix, bodies);
+    let out = db_slot.lock().unwrap().take();
+    let v = (|| -> Verdict {
+        finish(&x)?;
+        let (db, r) = out.as_ref().ok_or("harness: compact() did not return")?;
+        let obs = match r {
+            Err(redb::CompactionError::EphemeralSavepointExists) => "refused(ephemeral savepoint)",
+            Err(redb::CompactionError::TransactionInProgress) => "refused(transaction in progress)",
+            Ok(b) => return Err(format!("compact() ran (returned Ok({b})) although an ephemeral savepoint was alive when it obtained the write lock")),
+            Err(e) => return Err(format!("compact() failed with {e} instead of refusing")),
+        };
+        let mut want = before.clone();
+        want.get_mut("x").unwrap().t_mut().insert(crate::types::Val::U(6), crate::types::Val::B(val(66, 1400)));
+        let after = crate::dump::dump_tables_only(db, None)?;
+        if after != want {
+            return Err(format!("contents after the refused compaction: {}", crate::model::diff_tables(&after, &want)));
+        }
+        check_after(db, &backend, true)?;
+        Ok(obs.into())
+    })();
+    drop(sp_slot);
+    drop(out);
+    (x, v)
+}
+
 pub fn run_once(scn: &str, cache_idx: usize, prefix: &[usize]) -> (ExecResult, Verdict) {
+    // a panic while judging or cleaning up (e.g. redb finds a lock poisoned by a thread that
+    // panicked during the schedule) must not take the worker process down with its findings
+    match crate::par::guarded(|| run_once_inner(scn, cache_idx, prefix)) {
+        Ok(v) => v,
+        Err(msg) => match schedx::take_last_exec() {
+            Some(x) => {
+                let v = match finish(&x) {
+                    Err(e) => Err(format!("{e}; afterwards, while judging/cleaning up: {msg}")),
+                    Ok(()) => Err(format!("panic after the schedule (judging/cleanup): {msg}")),
+                };
+                (x, v)
+            }
+            None => panic!("harness: scenario {scn} panicked before its schedule ran: {msg}"),
+        },
+    }
+}
+
+fn run_once_inner(scn: &str, cache_idx: usize, prefix: &[usize]) -> (ExecResult, Verdict) {
+    schedx::clear_last_exec();
     match scn {
+        "S9" => s9(cache_idx, prefix),
         "S1" => s1(cache_idx, prefix),
         "S2" => s2(cache_idx, prefix),
         "S3" => s3(cache_idx, prefix, false, false),
